@@ -197,3 +197,43 @@ def switch_on_result(b, comp):
             if e:
                 out.append((bj, e[0], e[1]))
     return out
+
+
+
+def emptiness_tests(b, type_re=r'.'):
+    """[(empty_edge, nonempty_edge, CallSite)] for every test of "this container / slice is empty" in body b:
+    `x.is_empty()` and the `x.len() ==/!=/</>/<=/>= 0|1` spellings, polarity normalised. CallSite is the
+    is_empty / len call (its arg 0 is the container)."""
+    import re as _re
+    from core import op_local, op_const_bits
+    out = []
+    for (bi, c, te, fe, cs) in b.switches_on_call(lambda c: _re.search(r'::is_empty$', c.name) is not None and _re.search(type_re, c.name) is not None):
+        out.append((te, fe, cs))
+    for bj, blk in enumerate(b.blocks):
+        if not b.live[bj] or blk['term']['k'] != 'switch':
+            continue
+        c = b.switch_cond(bj)
+        if not (c and c['kind'] == 'bool'):
+            continue
+        for o in c['origin']:
+            if not (o[0] == 'rv' and o[2]['k'] == 'binop' and o[2]['op'] in ('Eq', 'Ne', 'Lt', 'Ge', 'Gt', 'Le')):
+                continue
+            for (x, y, flip) in ((o[2]['a'], o[2]['b'], False), (o[2]['b'], o[2]['a'], True)):
+                lx = op_local(x)
+                k = op_const_bits(y)
+                if lx is None or k is None:
+                    continue
+                lens = [t for t in b.trace_local(lx) if t[0] == 'call' and _re.search(r'::len$', t[1].name) and _re.search(type_re, t[1].name)]
+                if not lens:
+                    continue
+                e = b.bool_edges(bj)
+                if not e:
+                    continue
+                op = o[2]['op']
+                if flip:
+                    op = {'Lt': 'Gt', 'Gt': 'Lt', 'Le': 'Ge', 'Ge': 'Le'}.get(op, op)
+                if (op, k) in (('Eq', 0), ('Lt', 1), ('Le', 0)):
+                    out.append((e[0], e[1], lens[0][1]))
+                elif (op, k) in (('Ne', 0), ('Ge', 1), ('Gt', 0)):
+                    out.append((e[1], e[0], lens[0][1]))
+    return out
